@@ -191,6 +191,7 @@ fn pool(i: i64) -> Vec<PathControlPoint> {
         3 => vec![p(0.0, 0.0, Some(PathType::BEZIER)), p(50.0, 80.0, None), p(100.0, 0.0, None), p(150.0, 80.0, None),
                   p(150.0, 80.0, Some(PathType::CATMULL)), p(200.0, 100.0, None), p(180.0, 30.0, None)],
         4 => vec![p(7.0, 9.0, None)],
+        6 => vec![p(0.0, 0.0, Some(PathType::BEZIER)), p(60.0, 90.0, None), p(120.0, 0.0, None)],
         _ => vec![p(0.0, 0.0, Some(PathType::PERFECT_CURVE)), p(40.0, 40.0, None), p(80.0, 0.0, None)],
     }
 }
